@@ -86,6 +86,28 @@ def fam_b(case, fl):
     return _except_name(case, fl) and not any(fl["name"] in d for d in fl.get("ns", []))
 
 
+def fam_b4(case, fl):
+    """the name of an `except … as n` clause that the program ALSO binds elsewhere (assignment, import, def, class, loop
+    or with target …): since a21b6de the analysis puts the binding that preceded the handler back after it (the handler
+    may not run), so when the handler does run — and Python unbinds n — a later read is not reported"""
+    if not _except_name(case, fl) or any(fl["name"] in d for d in fl.get("ns", [])):
+        return False
+    import ast as _ast
+    try:
+        tree = _ast.parse(fl["src"])
+    except SyntaxError:
+        return False
+    n = fl["name"]
+    for x in _ast.walk(tree):
+        if isinstance(x, _ast.Name) and x.id == n and isinstance(x.ctx, _ast.Store):
+            return True
+        if isinstance(x, _ast.alias) and (x.asname or x.name.split(".")[0]) == n:
+            return True
+        if isinstance(x, (_ast.FunctionDef, _ast.AsyncFunctionDef, _ast.ClassDef)) and x.name == n:
+            return True
+    return False
+
+
 def fam_c(case, fl):
     """augmented assignment whose target is the plain name n"""
     return _unsound(fl) and any(s[0] == "augAssign" and s[1] == ["name", fl["name"]] for s in _stmts(case))
@@ -271,17 +293,32 @@ def fam_code_imprecise(case, fl):
 
 FAMILIES = dict(classCompRead=fam_a, exceptNameAfter=fam_b, augUnbound=fam_c, classNameRemoved=fam_d,
                 unexecutedBinding=fam_e, targetInHeader=fam_f, annAssignTarget=fam_g, attrStoreUnbound=fam_i,
-                paramInAnnotation=fam_j, compVarInOwnIterable=fam_l, exceptNameInCallerNs=fam_b2, exceptNameReadInFunction=fam_b3, importSideEffect=fam_imp,
+                paramInAnnotation=fam_j, compVarInOwnIterable=fam_l, exceptNameInCallerNs=fam_b2, exceptNameReadInFunction=fam_b3, exceptNameRestored=fam_b4, importSideEffect=fam_imp,
                 codeStoreExists=fam_code_bound, codeAttrStore=fam_code_attr, codeImprecise=fam_code_imprecise)
 
 
 class C05(Prop):
     id = "C05"
     driver = "C05"
-    lean_modules = ["Pfb.C05.Props", "Pfb.PyCore.Json"]
+    lean_modules = ["Pfb.C05.Props", "Pfb.PyCore.Json", "Pfb.PyCore.Unused"]
     theorems = [
+        "Pfb.C05.C05_sound_fragB",
+        "Pfb.C05.C05_precise_fragB",
+        "Pfb.C05.C05_sound_fragC",
+        "Pfb.C05.C05_precise_fragC",
+        "Pfb.C05.fragB_C",
+        "Pfb.C05.C05_sound_fragE",
+        "Pfb.C05.C05_precise_fragE",
+        "Pfb.C05.witness_del_unbound",
+        "Pfb.C05.witness_del_caller_ns",
+        "Pfb.C05.witness_del_dotted",
+        "Pfb.C05.witness_del_after_def",
         "Pfb.C05.C05_sound_fragA",
         "Pfb.C05.C05_precise_fragA",
+        "Pfb.C05.C02_read_import_not_unused",
+        "Pfb.C05.C02_read_import_not_unused_fragC",
+        "Pfb.C05.witness_dotted_rebind",
+        "Pfb.C05.witness_import_rebinds_def",
         "Pfb.PyCore.symbolNeedsImport_spec",
         "Pfb.PyCore.walkAttrs_none_iff",
         "Pfb.C05.agree_mk",
@@ -324,8 +361,44 @@ class C05(Prop):
                    "K(b) skips runs in which CPython or the model raises an exception type the model does not track exactly "
                    "(TypeError etc.) and tolerates one CPython 3.12 quirk (PEP 709 sibling-comprehension fast locals)"]
 
+    # excluded sub-cases of the round-3 theorems, replayed on the real code at every run (printed, not judged):
+    # (theorem, program, caller namespaces, run index, NameError'd name)
+    ROUND3_WITNESSES = [
+        ("witness_del_unbound", [["delete", [["name", "y"]]]], [], [{}], 0, "y"),
+        ("witness_del_caller_ns", [["assign", [["name", "x"]], ["const"]], ["delete", [["name", "x"]]], ["expr", ["name", "x"]]],
+         [], [{"x": ["obj"]}], 0, "x"),
+        ("witness_del_dotted", [["import", [["pa.s1", None]]], ["delete", [["name", "pa"]]],
+                                ["expr", ["attr", ["attr", ["name", "pa"], "s1"], "m1"]]], [], [{}], 0, "pa"),
+        ("witness_del_after_def", [["assign", [["name", "x"]], ["const"]],
+                                   ["funcDef", "f", {"args": [], "defaults": []}, [["return", ["name", "x"]]], [], None],
+                                   ["delete", [["name", "x"]]]],
+         [["expr", ["call", ["name", "f"], []]]], [{}], 0, "x"),
+    ]
+
+    def replay_round3_witnesses(self):
+        """-> [(theorem, CPython NameErrors, find_missing_imports report, verdict)] on the code under test"""
+        out = []
+        for wid, body, calls, nss, run, name in self.ROUND3_WITNESSES:
+            case = dict(prog=dict(body=body, calls=calls), ns=nss, loaded=[], ext="del")
+            try:
+                obs = self.run_impl(case)
+                r = obs["runs"][run]
+                rep = r["report"]
+                covered = isinstance(rep, list) and any(x == name or x.startswith(name + ".") for x in rep)
+                verdict = ("falsity reproduced" if name in r["ne"] and not covered
+                           else "repaired in this tree" if name in r["ne"] else "not raised")
+                out.append((wid, r["ne"], rep, verdict))
+            except Exception as e:
+                out.append((wid, None, None, "replay failed: %s" % type(e).__name__))
+        return out
+
     def setup(self, tier, rng):
         G.install_builtins()
+        for what in G.probe_unmodelled():
+            print("NOTE property=C05: unused-import correspondence (op `unused`) SKIPPED: the code under test has a mechanism "
+                  "the model lacks: %s" % what)
+        for wid, ne, rep, verdict in self.replay_round3_witnesses():
+            print("WITNESS-REPLAY property=C05 %s: CPython NameError %r, find_missing_imports %r -> %s" % (wid, ne, rep, verdict))
 
     def teardown(self):
         G.universe_remove()
@@ -429,6 +502,51 @@ class C05(Prop):
         except Exception as e:
             return {"err": type(e).__name__ + ": " + str(e)[:200]}
 
+    @staticmethod
+    def _unused(src):
+        """pyflyby's unused-import list for the source, as sorted [lineno, str(Import)]"""
+        from pyflyby._autoimp import scan_for_import_issues
+        from pyflyby._parse import PythonBlock
+        try:
+            _, unused = scan_for_import_issues(PythonBlock(src), find_unused_imports=True, parse_docstrings=False)
+            return sorted([int(l), str(i)] for l, i in unused)
+        except Exception as e:
+            return {"err": type(e).__name__ + ": " + str(e)[:200]}
+
+    @staticmethod
+    def _import_at(located, line, idx):
+        """the Import (as pyflyby prints it) of alias `idx` of the import statement on `line`"""
+        from pyflyby._importstmt import Import
+        for st in G.walk_stmts([x[2] for x in located if x[0] == "at"] if False else located):
+            pass
+        def walk(body):
+            for at in body:
+                ln, st = at[1], at[2]
+                yield ln, st
+                for b in G.sub_bodies(st):
+                    yield from walk(b)
+                if st[0] == "try":
+                    pass
+        def bodies(st):
+            # handlers of a located try are [line, type, name, body]
+            if st[0] == "try":
+                return [st[1]] + [h[3] for h in st[2]] + [st[3], st[4]]
+            return G.sub_bodies(st)
+        def walk2(body):
+            for at in body:
+                ln, st = at[1], at[2]
+                yield ln, st
+                for b in bodies(st):
+                    yield from walk2(b)
+        for ln, st in walk2(located):
+            if ln == line and st[0] in ("import", "importFrom"):
+                names = st[1] if st[0] == "import" else st[2]
+                if idx < len(names):
+                    n, a = names[idx]
+                    mod = None if st[0] == "import" else st[1]
+                    return str(Import.from_split((mod, n, a or n)))
+        return "?%d.%d" % (line, idx)
+
     def run_impl(self, case):
         G.install_builtins()
         prog = case["prog"]
@@ -452,7 +570,10 @@ class C05(Prop):
             r["report_code"] = self._report(code, nss)
             r["registry"] = G.registry_snapshot()
         G.universe_purge()
-        return dict(src=src, marker=marker, runs=runs, fixes=G.probe_fixes())
+        obs = dict(src=src, marker=marker, runs=runs, fixes=G.probe_fixes())
+        if any(st[0] in ("import", "importFrom") for st in G.walk_stmts(G.all_stmts(prog))) and not G.probe_unmodelled():
+            obs["unused"] = self._unused(src)
+        return obs
 
     # -- oracle ----------------------------------------------------------------
     def oracle(self, case, obs):
@@ -537,6 +658,8 @@ class C05(Prop):
         for r in obs["runs"]:
             ns, reg = self.model_ns(r["nsspec"], r["registry"])
             reqs.append(dict(op="findMissing", prog=located, builtins=b, ns=ns, registry=reg, fixes=obs.get("fixes", {})))
+        if "unused" in obs:
+            reqs.append(dict(op="unused", prog=located, builtins=b, fixes=obs.get("fixes", {})))
         nb = len(case["prog"]["body"])
         for r in obs["runs"]:
             idx = {m: k for k, (m, _) in enumerate(r["registry"])}
@@ -551,6 +674,15 @@ class C05(Prop):
 
     def compare(self, case, obs, resps):
         nr = len(obs["runs"])
+        if "unused" in obs:
+            ru = resps[nr]
+            resps = resps[:nr] + resps[nr + 1:]
+            if isinstance(obs["unused"], dict):
+                return "scan_for_import_issues raised %s" % obs["unused"]["err"]
+            located = G.render_full(case["prog"])[2]
+            want = sorted([l, self._import_at(located, l, i)] for l, i in ru["unused"])
+            if want != obs["unused"]:
+                return "unused imports: scan_for_import_issues=%r model=%r src=%r" % (obs["unused"], want, obs["src"])
         d = self.compare_exec(case, obs, resps[nr:])
         if d:
             return d
@@ -575,8 +707,8 @@ class C05(Prop):
 
     def compare_exec(self, case, obs, resps):
         """K(b): the reference semantics (Pfb.PyCore.Exec) against CPython, run by run."""
-        if case.get("ext"):
-            return None
+        if case.get("ext") is True:
+            return None        # global / nonlocal: not modelled exactly; `ext == "del"` (module-level del only) is compared
         for i, (r, m) in enumerate(zip(obs["runs"], resps)):
             oc = r["outcome"]
             oc = "Local" if oc in ("UnboundLocal", "FreeVar") else oc
